@@ -10,6 +10,7 @@ import (
 
 	"pgregory.net/rapid"
 
+	"verif/clientsim"
 	"verif/evid"
 	"verif/memnet"
 	"verif/pairsim"
@@ -163,9 +164,56 @@ func TestCheck(t *testing.T) {
 		}
 		return f
 	})
+	scripted := evid.RapidEngine("scripted", evid.RapidOpts{Quick: 3000, Thorough: 100000, Crashy: true}, clientsim.Gen, func(sc clientsim.Scenario) *evid.Failure {
+		tr := clientsim.Run(t, sc)
+		f := scriptedOracle(sc, tr)
+		if f == nil {
+			key := ""
+			if clientsim.Abnormal(tr) {
+				b, _ := json.Marshal(sc)
+				key = string(b)
+			}
+			r.Case("scripted", key, func() any { return sc })
+		}
+		return f
+	})
 	r.Main(evid.Meta{
-		Rule:        "two library endpoints in a synctest bubble; a history of 1-12 exchanges (GET/POST/PUT/DELETE with bodies from 0 to several blocks, one-way writes, observe with notifications, observe cancellation, ping), each steered towards an ending (answered, peer never answers, slow handler outlasting the deadline, caller cancellation after 1-50 ms, separate response), partly concurrent, behind request limits 1/2/16 and NSTART 1/8, on a datagram link with drop/duplicate/re-order/replay tapes or on a stream; then 300 virtual seconds of idle time with housekeeping ticks every 100/500/4000 ms, after which the size of every per-exchange table of both connections (verif accessors: token and message-ID continuations, response cache, per-ID locks, block-wise receive/send caches, limiter queues, observations) must equal the model: zero, or the number of observations still live. Non-trivial = at least one exchange ended with an error or an error status; distinct by scenario",
+		Rule:        "two library endpoints in a synctest bubble; a history of 1-12 exchanges (GET/POST/PUT/DELETE with bodies from 0 to several blocks, one-way writes, observe with notifications, observe cancellation, ping), each steered towards an ending (answered, peer never answers, slow handler outlasting the deadline, caller cancellation after 1-50 ms, separate response), partly concurrent, behind request limits 1/2/16 and NSTART 1/8, on a datagram link with drop/duplicate/re-order/replay tapes or on a stream; then 300 virtual seconds of idle time with housekeeping ticks every 100/500/4000 ms, after which the size of every per-exchange table of both connections (verif accessors: token and message-ID continuations, response cache, per-ID locks, block-wise receive/send caches, limiter queues, observations) must equal the model: zero, or the number of observations still live. scripted: one client connection against the scripted wire-level peer, 1-12 exchanges (GET, POST with block-wise upload, observe, cancel, ping, one-way write, a request that re-uses the token of an outstanding one) whose endings the peer chooses (answer, silence, bare ACK, reset, duplicated reply, stray reply, undecodable Block2 option, first block then silence, block-wise download), caller cancellation, NSTART 1/2/8, limits 1/2/16, MAX_RETRANSMIT 0-3; same idle phase and read-out. Non-trivial = at least one exchange ended with an error or an error status; distinct by scenario",
 		Assumptions: []string{"tables of a connection that was closed during the history are not read", "the idle phase (300 s) exceeds every deadline in the scenario, the block-wise timeouts and the 247 s exchange lifetime"},
 		Floor:       200,
-	}, eng)
+	}, eng, scripted)
+}
+
+func scriptedOracle(sc clientsim.Scenario, tr clientsim.Trace) *evid.Failure {
+	if tr.Panic != "" {
+		return evid.Failf("state/panic", sc, "panic in scenario: %s", tr.Panic)
+	}
+	if tr.Deadlock {
+		return evid.Failf("state/deadlock", sc, "all goroutines blocked while the scenario was still running")
+	}
+	for i, op := range sc.Ops {
+		if !tr.Ops[i].Returned {
+			return evid.Failf("state/call-hangs", sc, "operation %d (%s, peer %s) never returned", i, op.Kind, op.Peer)
+		}
+	}
+	if !tr.SizesRead {
+		return nil
+	}
+	s := tr.Sizes
+	type item struct {
+		key  string
+		got  int
+		want int
+	}
+	for _, it := range []item{{"token-handlers", s.TokenHandlers, 0}, {"mid-handlers", s.MidHandlers, 0}, {"response-cache", s.ResponseCache, 0}, {"mid-locks", s.MidLocks, 0},
+		{"bw-receiving", s.BlockwiseReceiving, 0}, {"bw-sending", s.BlockwiseSending, 0}, {"limiter-queues", s.LimiterQueues, 0}, {"observations", s.Observations, tr.LiveObs}} {
+		if it.got != it.want {
+			res := ""
+			for i, op := range sc.Ops {
+				res += fmt.Sprintf("[%d %s/%s code=%d err=%.40q]", i, op.Kind, op.Peer, tr.Ops[i].Code, tr.Ops[i].Err)
+			}
+			return evid.Failf("state/client/"+it.key, sc, "client connection, 300 s after the last exchange ended (housekeeping every %d ms): table %s holds %d entries, expected %d; results: %s", sc.TickMs, it.key, it.got, it.want, res)
+		}
+	}
+	return nil
 }
